@@ -210,10 +210,12 @@ func flagSet(name string) bool {
 //
 // A tree that contains functions the reference tree does not have is analysed
 // in two equivalent forms: with those functions inlined into their callers,
-// and as written. A rule all of whose obligations are discharged in one of the
-// forms is discharged (the two forms are the same program; what is shown for
-// one holds for the other); a rule that fails in both is reported from the
-// form in which fewer of its obligations fail.
+// and as written. A rule that establishes something (a guard on every path, a
+// provenance) and whose obligations are all discharged in one of the forms is
+// discharged — the two forms are the same program, what is shown for one holds
+// for the other; if it fails in both it is reported from the form in which
+// fewer of its obligations fail. A rule that looks for something that must not
+// occur (Checker.absence) has to be clean in both forms.
 func analyse(prop string, def *propDef, tier, root string, bc BuildConfig) (c *Checker, err error) {
 	defer func() {
 		if r := recover(); r != nil {
@@ -289,6 +291,14 @@ func mergeViews(a, b *Checker) *Checker {
 	fa, fb := fails(a), fails(b)
 	useB := map[string]bool{}
 	for _, r := range a.ruleOrder {
+		if a.absenceOf[r] || b.absenceOf[r] {
+			// "no X anywhere": X may be out of sight in one form (the call of a new helper is the X, and
+			// inlining removes it; or X sits in a helper the rule does not enter) — both forms must be clean
+			if fa[r] == 0 && fb[r] > 0 {
+				useB[r] = true
+			}
+			continue
+		}
 		switch {
 		case fa[r] == 0:
 		case fb[r] == 0, fb[r] < fa[r]:
